@@ -8,6 +8,7 @@ import TinodeVerif.Driver.C18
 import TinodeVerif.Driver.World
 import TinodeVerif.Driver.Gate
 import TinodeVerif.Driver.Calls
+import TinodeVerif.Driver.Files
 /-!
 Line-protocol driver. Usage:
   driver model    < ops.txt        > model.out     one output line per op line
@@ -113,6 +114,19 @@ partial def loopCalls (h : IO.FS.Stream) (out : IO.FS.Stream) (st : Calls.CS) : 
     | some (st', o) => out.putStrLn o; loopCalls h out st'
     | none => out.putStrLn "bad-op"; loopCalls h out st
 
+partial def loopFiles (h : IO.FS.Stream) (out : IO.FS.Stream) (st : Files.FS) : IO Unit := do
+  let line ← h.getLine
+  if line.isEmpty then return ()
+  let l := if line.endsWith "\n" then (line.dropEnd 1).toString else line
+  let ws := Wire.words l
+  if ws.isEmpty then
+    out.putStrLn ""
+    loopFiles h out st
+  else
+    match Driver.Files.step st ws with
+    | some (st', o) => out.putStrLn o; loopFiles h out st'
+    | none => out.putStrLn "bad-op"; loopFiles h out st
+
 partial def loop (h : IO.FS.Stream) (out : IO.FS.Stream) (f : String → String) : IO Unit := do
   let line ← h.getLine
   if line.isEmpty then return ()
@@ -129,4 +143,5 @@ def main (args : List String) : IO UInt32 := do
   | ["world"] => loopWorld stdin stdout {}; stdout.flush; return 0
   | ["gate"] => loopGate stdin stdout {}; stdout.flush; return 0
   | ["calls"] => loopCalls stdin stdout {}; stdout.flush; return 0
+  | ["files"] => loopFiles stdin stdout {}; stdout.flush; return 0
   | _ => IO.eprintln "usage: driver model|verdict"; return 2
